@@ -110,10 +110,19 @@ func (s *Store) Push(b bpv7.Bundle) error {
 		}
 
 		if knownFragment {
+			// Fragments of the same Bundle, which were created for different MTUs, might share their offset but differ
+			// in their payload's length. The longer fragment contains the shorter one and replaces it.
+			if stored, err := compPart.Load(); err == nil && fragmentPayloadLen(stored) >= fragmentPayloadLen(b) {
+				log.WithFields(log.Fields{
+					"bundle": b.ID().String(),
+				}).Debug("Received bundle fragment, which is already stored")
+				return nil
+			}
+
 			log.WithFields(log.Fields{
 				"bundle": b.ID().String(),
-			}).Debug("Received bundle fragment, which is already stored")
-			return nil
+			}).Info("Received longer bundle fragment for a known offset, replacing the stored fragment")
+			return compPart.replaceBundle(b)
 		} else {
 			log.WithFields(log.Fields{
 				"bundle": b.ID().String(),
